@@ -62,6 +62,7 @@ type Result struct {
 	Nontrivial   bool           `json:"nontrivial"`
 	Inconclusive string         `json:"inconclusive,omitempty"`
 	Leaked       bool           `json:"leaked,omitempty"`
+	Tainted      bool           `json:"tainted,omitempty"` // process-wide state was corrupted: this worker process must not run further cases
 	Log          []string       `json:"log,omitempty"` // verbose / replay only
 }
 
@@ -201,7 +202,9 @@ func Minimise(p Prop, t *testing.T, c *Case, class string, budget int) (*Case, *
 	best := c
 	bestRes := p.Run(t, c, false)
 	runs := 1
-	if bestRes.Violation != class {
+	if bestRes.Violation != class || bestRes.Tainted {
+		// a run that corrupted process-wide state poisons every later candidate
+		// in this process: report the case unminimised
 		return c, bestRes, runs
 	}
 	for progress := true; progress && runs < budget; {
